@@ -182,8 +182,12 @@ func judgeOthers(out *Out, cause string, before, after map[string]lpSnap, self s
 		gross := new(big.Int).Sub(exp, a.units)
 		if gross.Sign() > 0 && !(k == skip) {
 			out.Emit(fmt.Sprintf("chk c15.remove tag=%s.decrease.matured %d %d %d %s %s 1", cause, L, C, h, b.unlocks, gross), "true", "chk.decrease", false)
+			out.Emit(fmt.Sprintf("chk c15.removereal tag=%s.decrease.real %s %d %d %d %s %s 1", cause, k, L, C, h, b.unlocks, gross), "true", "chk.decrease", false)
 			out.Emit(fmt.Sprintf("chk c15.consume tag=%s.decrease.consume %d %s %s %s 1", cause, L, b.unlocks, a.unlocks, gross), "true", "chk.decrease", false)
 			out.Emit(fmt.Sprintf("chk c15.once tag=%s.decrease.once %s removal 1 %d 0 %s %s", cause, k, L, gross, a.unlocks), "true", "chk.decrease", false)
+		}
+		if b.unlocks != a.unlocks { // whatever rewrote the list: every stored record must still be a real request at its real height
+			out.Emit(fmt.Sprintf("chk c15.genuine tag=%s.genuine %s %s", cause, k, a.unlocks), "true", "chk.genuine", false)
 		}
 		if k != self && k != upKey && b.dump != a.dump {
 			out.Emit("obs "+k, a.dump, "obs.changed."+cause, false)
@@ -367,7 +371,9 @@ func init() {
 				switch {
 				case op < 8: // admin changes the periods
 					nl, nc := periodChoices[rng.Intn(len(periodChoices))], periodChoices[rng.Intn(len(periodChoices))]
-					if rng.Chance(1, 12) {
+					if rng.Chance(1, 3) && L < 1<<40 { // raise the period a little: requests matured under the old one are young under the new
+						nl = L + []uint64{1, 2, 3, 5, 10, 20, 47}[rng.Intn(7)]
+					} else if rng.Chance(1, 12) {
 						nl = periodWrap[rng.Intn(len(periodWrap))]
 					}
 					if rng.Chance(1, 20) {
@@ -483,8 +489,12 @@ func init() {
 				}
 				if kind == "removal" {
 					out.Emit(fmt.Sprintf("chk c15.remove tag=remove.matured %d %d %d %s %s %s", L, C, h, unlocksOf(lpBefore), burned, acc), "true", "chk.remove", false)
+					out.Emit(fmt.Sprintf("chk c15.removereal tag=remove.real %s %d %d %d %s %s %s", key, L, C, h, unlocksOf(lpBefore), burned, acc), "true", "chk.remove", false)
 					out.Emit(fmt.Sprintf("chk c15.consume tag=remove.consume %d %s %s %s %s", L, unlocksOf(lpBefore), unlocksOf(lpAfter), burned, acc), "true", "chk.consume", false)
 					out.Emit(fmt.Sprintf("chk c15.lockzero tag=remove.lockzero %d %s", L, cls), "true", "chk.lockzero", false)
+				}
+				if kind == "unlock" { // the judge's request ledger: the height is the height this harness ran the message at
+					out.Emit(fmt.Sprintf("chk c15.request tag=unlock.request %s %d %s %s %s", key, h, reqUnits, acc, unlocksOf(lpAfter)), "true", "chk.request", false)
 				}
 				out.Emit(fmt.Sprintf("chk c15.outstanding tag=%s.outstanding %s %s", kind, unitsOf(lpAfter), unlocksOf(lpAfter)), "true", "chk.outstanding", false)
 				out.Emit(fmt.Sprintf("chk c15.once tag=%s.once %s %s %s %d %s %s %s", kind, key, kind, acc, L, reqUnits, burned, unlocksOf(lpAfter)), "true", "chk.once", false)
